@@ -251,7 +251,8 @@ def minimise(pool, prop, pid, spec, sig, budget_s=60, log=None):
                     break
             if hit is not None:
                 best = batch[hit]
-                best_v = [v for v in results[hit]['violations'] if v['sig'] == sig][0]
+                best_v = dict([v for v in results[hit]['violations'] if v['sig'] == sig][0],
+                              digest=results[hit].get('digest'))
                 improved = True
                 break
             i += W
@@ -458,10 +459,21 @@ def write_replay(pid, sig, v, spec, out, runs):
     h = hashlib.sha256(sig.encode()).hexdigest()[:8]
     path = os.path.join(rdir, '%s-%s-%s.json' % (pid, h, out.get('seed')))
     doc = {'property': pid, 'signature': sig, 'message': v.get('msg'), 'seed': out.get('seed'),
-           'minimise_runs': runs, 'spec': spec}
+           'minimise_runs': runs, 'spec': spec,
+           'digest': v.get('digest') or out.get('digest'),
+           'repo_head': _repo_head()}
     with open(path, 'w') as f:
         json.dump(doc, f, indent=1, sort_keys=True)
     return path
+
+
+def _repo_head():
+    try:
+        from . import boot
+        return subprocess.check_output(['git', '-C', boot.REPO, 'rev-parse', '--short', 'HEAD'],
+                                       stderr=subprocess.DEVNULL).decode().strip()
+    except Exception:
+        return None
 
 
 def do_replay(a, pid, prop, known):
@@ -499,7 +511,12 @@ def do_replay(a, pid, prop, known):
         print('replay: recorded signature %s NOT reproduced (digest %s)'
               % (want, outs[0].get('digest')))
     else:
-        print('replay: reproduced, digest %s' % outs[0].get('digest'))
+        rec = doc.get('digest')
+        same = '' if not rec else (' (identical to the recorded execution)'
+                                   if rec == outs[0].get('digest')
+                                   else ' (recorded digest %s: the code under test or the '
+                                        'framework changed since)' % rec)
+        print('replay: reproduced, digest %s%s' % (outs[0].get('digest'), same))
     return rc
 
 
